@@ -379,7 +379,7 @@ func (w *World) pxDispatchTag(fn *ssa.Function, t int, boundaries map[*ssa.Funct
 			if _, done := st.vals["__arm"]; done {
 				return false
 			}
-			sc := c.Call.StaticCallee()
+			sc := px.calleeOf(c, fr, st) // static, or through a function value the path knows
 			if sc == nil {
 				return true
 			}
@@ -409,10 +409,11 @@ func (w *World) pxDispatchTag(fn *ssa.Function, t int, boundaries map[*ssa.Funct
 			}
 			if label, isB := boundaries[sc]; isB {
 				handed := false
-				for _, a := range c.Call.Args {
-					s, _ := px.eval(a, fr, st)
+				avs, ats := px.callArgs(c, fr, st)
+				for ai, at := range ats {
+					s, _ := px.evalTerm(at, st)
 					if s != nil && s.Equal(single(int64(t))) {
-						if _, isC := a.(*ssa.Const); !isC {
+						if _, isC := avs[ai].(*ssa.Const); !isC {
 							handed = true
 						}
 					}
